@@ -193,6 +193,11 @@ EDGE = [
     "select * from int1.t1 as x left join int1.u1 as y on x.a = y.a left join int2.t2 as z on z.a = x.a limit 2",
     "select * from int1.t1 left join int2.t2 on t1.a = t2.a where coalesce(t2.b, 0) = 0",
     "select * from int1.t1 left join int2.t2 on t1.a = t2.a limit 2 offset 1",
+    "select distinct * from int1.t1 join int2.t2 on t1.a = t2.a", "select distinct * from int1.t1 left join int2.t2 on t1.b = t2.b",
+    "select distinct * from (select t1.a, t2.b from int1.t1 join int2.t2 on t1.a = t2.a) as s", "select distinct * from int1.t1",
+    "with x as (select * from int1.t1), y as (select * from int2.t2) select * from x", "with x as (select * from int1.t1), y as (select * from int2.t2) select * from y",
+    "with x as (select * from int1.t1), y as (select * from int2.t2) select * from (select * from x) as s",
+    "with x as (select a from int1.t1), y as (select a from int2.t2) select * from x union select * from y",
     "select a from int1.t1 except select a from int2.t2", "select a from int1.t1 except select a from int2.t2 union select a from int3.t3",
     "select a from int1.t1 union select a from int2.t2 except select a from int3.t3", "select a from int1.t1 intersect select a from int2.t2",
     "select a from int1.t1 union all select a from int2.t2 except select a from int1.u1",
@@ -258,7 +263,7 @@ HEADER = ['From Coq Require Import ZArith PArith List Bool.',
 FUEL = 40
 
 
-def prepare(sql, cname, cat_kw, rng, ndb, N, plan_fn=None):
+def prepare(sql, cname, cat_kw, rng, ndb, N, plan_fn=None, extra_alts=None):
     """-> dict with Coq definitions for one statement, or raises Unsupported"""
     from mindsdb_sql import parse_sql
     from mindsdb_sql.parser import ast
@@ -287,6 +292,12 @@ def prepare(sql, cname, cat_kw, rng, ndb, N, plan_fn=None):
                 alts[aname] = sqlcoq.lst([tr.step(s) for s in a])
         except sqlcoq.Unsupported:
             pass
+    if extra_alts:
+        for aname, a in extra_alts(steps, q0):
+            try:
+                alts[aname] = sqlcoq.lst([tr.step(s) for s in a])
+            except sqlcoq.Unsupported:
+                pass
     dbs = []
     # bag semantics of set operations shows only when the same row occurs several times: more, and few-valued, databases
     for _ in range(ndb * 4 if any(w in sql.lower() for w in (' except ', ' intersect ')) else ndb):
@@ -383,7 +394,7 @@ def classify(sql):
     return f
 
 
-def run_cases(R, inputs, catd, rng, ndb, tag, findings, plan_fn=None, extra_check=None):
+def run_cases(R, inputs, catd, rng, ndb, tag, findings, plan_fn=None, extra_check=None, extra_alts=None):
     """shared by C08 and C11: plan, translate, evaluate in Coq; -> (stats, list of failing (prep, db index))"""
     N = sqlcoq.Names()
     preps = []
@@ -392,7 +403,7 @@ def run_cases(R, inputs, catd, rng, ndb, tag, findings, plan_fn=None, extra_chec
     skipped = {}
     for sql, cname in inputs:
         try:
-            p = prepare(sql, cname, catd[cname], rng, ndb, N, plan_fn)
+            p = prepare(sql, cname, catd[cname], rng, ndb, N, plan_fn, extra_alts)
             if extra_check:
                 p['extra'] = extra_check(sql, cname, p)
             preps.append(p)
